@@ -1,13 +1,16 @@
 // gateway: runs whole-engine histories (requests, responses, proxy errors, clock advances) against one real
-// flows-mode engine built from YAML and records, per transaction, the processors that ran (proc.exec point),
-// the answer and the outcome - NDJSON for TLC (specs/gateway/GatewayTrace.tla).
+// flows-mode engine built from YAML and records, per transaction, the processors that ran (proc.exec point) with the
+// actions each of them handed back, the user flows the engine counted as invoked, the folded + SPOE-encoded answer
+// (routing.getSPOEReqActions / getSPOERespActions on exactly those actions) and the outcome - NDJSON for TLC
+// (specs/gateway/GatewayTrace.tla).  A pure executor: nothing here judges an outcome.
 //
 //	gateway run <scripts.json> <outdir>
 //
 // scripts.json: [{"config":{...}, "files":{rel: yaml}, "histories":[[event,...],...]}, ...]
-// event: {"ev":"reset","now":t} | {"ev":"adv","d":d} | {"ev":"req","id":..,"url":..,"hdr":{..}} |
+// event: {"ev":"reset","now":t} | {"ev":"adv","d":d}
 //
-//	{"ev":"res","id":..,"url":..,"status":n} | {"ev":"err","id":..}
+//	| {"ev":"req","id":..,"sq":sequence id,"method":..,"url":[[host labels],[path segments]],"qry":[[k,v],..],"hdr":{..},"body":..}
+//	| {"ev":"res","id":..,"sq":..,"method":..,"url":..,"status":n,"hdr":{..},"body":..} | {"ev":"err","id":..}
 //
 // One tick = 500 ms.
 package main
@@ -17,9 +20,19 @@ import (
 	"os"
 	"path/filepath"
 	"regexp"
+	"sort"
+	"strings"
 	"time"
 
+	"lunar/engine/actions"
+	lunar_messages "lunar/engine/messages"
+	"lunar/engine/routing"
+	stream_config "lunar/engine/streams/config"
+	lunar_context "lunar/engine/streams/lunar-context"
+	stream_types "lunar/engine/streams/types"
 	"lunar/toolkit-core/verifhook"
+
+	"github.com/negasus/haproxy-spoe-go/action"
 
 	"verifharness/internal/c01eng"
 	"verifharness/internal/vh"
@@ -35,8 +48,12 @@ type Event struct {
 	Now    int64             `json:"now,omitempty"`
 	D      int64             `json:"d,omitempty"`
 	ID     string            `json:"id,omitempty"`
-	URL    string            `json:"url,omitempty"`
+	Sq     string            `json:"sq,omitempty"`
+	Method string            `json:"method,omitempty"`
+	URL    [2][]string       `json:"url,omitempty"`
+	Qry    [][2]string       `json:"qry,omitempty"`
 	Hdr    map[string]string `json:"hdr,omitempty"`
+	Body   string            `json:"body,omitempty"`
 	Status int               `json:"status,omitempty"`
 }
 
@@ -48,17 +65,48 @@ type Script struct {
 
 func at(t int64) time.Time { return time.Unix(0, 0).Add(time.Duration(baseTicks+t) * tick) }
 
+func render(u [2][]string) string {
+	s := strings.Join(u[0], ".")
+	if len(u[1]) > 0 {
+		s += "/" + strings.Join(u[1], "/")
+	}
+	return s
+}
+
+func query(q [][2]string) string {
+	parts := []string{}
+	for _, e := range q {
+		parts = append(parts, e[0]+"="+e[1])
+	}
+	return strings.Join(parts, "&")
+}
+
+// ------------------------------------------------------------------ observation of processor executions
+
 var (
 	cur     []vh.Ev
+	marks   []int // number of actions handed back before the i-th processor execution of the transaction
+	curActs *stream_config.StreamActions
 	sysFlow = regexp.MustCompile(`^SystemFlow_(.*)_SYSTEM_FLOW_(?:START|END)$`)
 	sysProc = regexp.MustCompile(`^(.*)_QuotaProcessor(Inc|Dec)$`)
 	dirs    = map[string]string{"StreamTypeRequest": "req", "StreamTypeResponse": "res"}
 )
 
-func sink(point string, kv ...any) {
-	if point == "fw.inc" && os.Getenv("GW_DEBUG") != "" {
-		fmt.Fprintln(os.Stderr, "fw.inc", kv)
+func nActs() int {
+	if curActs == nil {
+		return 0
 	}
+	n := 0
+	if curActs.Request != nil {
+		n += len(curActs.Request.Actions)
+	}
+	if curActs.Response != nil {
+		n += len(curActs.Response.Actions)
+	}
+	return n
+}
+
+func sink(point string, kv ...any) {
 	if point != "proc.exec" {
 		return
 	}
@@ -89,6 +137,347 @@ func sink(point string, kv ...any) {
 		}
 	}
 	cur = append(cur, e)
+	marks = append(marks, nActs())
+}
+
+// ------------------------------------------------------------------ projection of actions (as harness/cmd/c07)
+
+type Act struct {
+	K  string      `json:"k"`
+	H  [][2]string `json:"h"`
+	St int         `json:"st"`
+	B  string      `json:"b"`
+	P  string      `json:"p"`
+	Ho string      `json:"ho"`
+	Q  string      `json:"q"`
+	Rm []string    `json:"rm"`
+}
+
+type Out struct {
+	Names   []string    `json:"names"`
+	Early   bool        `json:"early"`
+	ModReq  bool        `json:"modreq"`
+	Gen     bool        `json:"gen"`
+	ModResp bool        `json:"modresp"`
+	Retry   bool        `json:"retry"`
+	St      int         `json:"st"`
+	Body    string      `json:"body"`
+	Rh      [][2]string `json:"rh"`
+	Qh      [][2]string `json:"qh"`
+	QBody   string      `json:"qbody"`
+	Path    string      `json:"path"`
+	Host    string      `json:"host"`
+	Query   string      `json:"query"`
+	Th      [][2]string `json:"th"`
+	Bad     []string    `json:"bad"`
+}
+
+func hpairs(m map[string]string) [][2]string {
+	out := make([][2]string, 0, len(m))
+	for k, v := range m {
+		out = append(out, [2]string{k, v})
+	}
+	sort.Slice(out, func(i, j int) bool { return out[i][0] < out[j][0] })
+	return out
+}
+
+func strs(s []string) []string {
+	if s == nil {
+		return []string{}
+	}
+	return append([]string{}, s...)
+}
+
+// snapshot of a real action object (deep copy: the fold may update actions in place)
+func actOf(x any) Act {
+	a := Act{H: [][2]string{}, Rm: []string{}}
+	switch v := x.(type) {
+	case nil:
+		a.K = "nil"
+	case *actions.NoOpAction:
+		a.K = "noop"
+	case *actions.EarlyResponseAction:
+		a.K, a.St, a.B, a.H = "early", v.Status, v.Body, hpairs(v.Headers)
+	case *actions.ModifyHeadersAction:
+		a.K, a.H = "modh", hpairs(v.HeadersToSet)
+	case *actions.ModifyRequestAction:
+		a.K, a.H, a.Ho, a.P, a.Q, a.B = "modreq", hpairs(v.HeadersToSet), v.Host, v.Path, v.QueryParams, v.Body
+	case *actions.GenerateRequestAction:
+		a.K, a.H, a.Rm, a.B = "gen", hpairs(v.HeadersToSet), strs(v.HeadersToRemove), v.Body
+	case *actions.ModifyResponseAction:
+		a.K, a.H, a.B, a.St = "modresp", hpairs(v.HeadersToSet), v.Body, v.Status
+	case *actions.RetryRequestAction:
+		a.K, a.H = "retry", hpairs(v.HeadersToSet)
+	default:
+		a.K = fmt.Sprintf("unknown:%T", x)
+	}
+	return a
+}
+
+// parseDump inverts utils.DumpHeaders ("name:value\n" per header).
+func parseDump(s string, bad *[]string, what string) [][2]string {
+	m := map[string]string{}
+	if !strings.HasSuffix(s, "\n") && s != "" {
+		*bad = append(*bad, what+":no-trailing-newline")
+	}
+	for _, line := range strings.Split(strings.TrimSuffix(s, "\n"), "\n") {
+		if line == "" {
+			continue
+		}
+		i := strings.Index(line, ":")
+		if i < 0 {
+			*bad = append(*bad, what+":malformed-line")
+			continue
+		}
+		if _, dup := m[line[:i]]; dup {
+			*bad = append(*bad, what+":duplicate-header")
+		}
+		m[line[:i]] = line[i+1:]
+	}
+	return hpairs(m)
+}
+
+func asString(v any, bad *[]string, name string) string {
+	switch x := v.(type) {
+	case string:
+		return x
+	case []byte:
+		return string(x)
+	}
+	*bad = append(*bad, name+":type")
+	return ""
+}
+
+func asBool(v any, bad *[]string, name string) bool {
+	if b, ok := v.(bool); ok {
+		return b
+	}
+	*bad = append(*bad, name+":type")
+	return false
+}
+
+func asInt(v any, bad *[]string, name string) int {
+	switch x := v.(type) {
+	case int:
+		return x
+	case int32:
+		return int(x)
+	case int64:
+		return int(x)
+	}
+	*bad = append(*bad, name+":type")
+	return -1
+}
+
+// decode projects the SPOE actions handed to the proxy onto the record the specification (ActionsP) talks about.
+func decode(as action.Actions) Out {
+	o := Out{Names: []string{}, St: -1, Rh: [][2]string{}, Qh: [][2]string{}, Th: [][2]string{}, Bad: []string{}}
+	seen := map[string]bool{}
+	for _, a := range as {
+		if a.Type != action.TypeSetVar {
+			o.Bad = append(o.Bad, a.Name+":not-set-var")
+			continue
+		}
+		if seen[a.Name] {
+			o.Bad = append(o.Bad, a.Name+":duplicate-variable")
+		}
+		seen[a.Name] = true
+		o.Names = append(o.Names, a.Name)
+		switch a.Name {
+		case actions.ReturnEarlyResponseActionName:
+			o.Early = asBool(a.Value, &o.Bad, a.Name)
+		case actions.StatusCodeActionName:
+			o.St = asInt(a.Value, &o.Bad, a.Name)
+		case actions.ResponseBodyActionName:
+			o.Body = asString(a.Value, &o.Bad, a.Name)
+		case actions.ResponseHeadersActionName:
+			o.Rh = parseDump(asString(a.Value, &o.Bad, a.Name), &o.Bad, a.Name)
+		case actions.ModifyRequestActionName:
+			o.ModReq = asBool(a.Value, &o.Bad, a.Name)
+		case actions.GenerateRequestActionName:
+			o.Gen = asBool(a.Value, &o.Bad, a.Name)
+		case actions.RequestHeadersActionName:
+			o.Qh = parseDump(asString(a.Value, &o.Bad, a.Name), &o.Bad, a.Name)
+		case actions.RequestBodyActionName:
+			o.QBody = asString(a.Value, &o.Bad, a.Name)
+		case actions.RequestPathActionName:
+			o.Path = asString(a.Value, &o.Bad, a.Name)
+		case actions.RequestHostActionName:
+			o.Host = asString(a.Value, &o.Bad, a.Name)
+		case actions.RequestQueryParamsActionName:
+			o.Query = asString(a.Value, &o.Bad, a.Name)
+		case actions.ModifyResponseActionName:
+			o.ModResp = asBool(a.Value, &o.Bad, a.Name)
+		case actions.RetryRequestActionName:
+			o.Retry = asBool(a.Value, &o.Bad, a.Name)
+		case actions.RetryHeadersActionName:
+			o.Th = parseDump(asString(a.Value, &o.Bad, a.Name), &o.Bad, a.Name)
+		}
+	}
+	return o
+}
+
+// ------------------------------------------------------------------ one transaction
+
+var shared = lunar_context.NewMemoryState[[]byte]()
+
+func copyHdr(h map[string]string) map[string]string {
+	m := map[string]string{}
+	for k, v := range h {
+		m[k] = v
+	}
+	return m
+}
+
+func pairsOf(h map[string]string) [][2]string { return hpairs(h) }
+
+func sq(e Event) string {
+	if e.Sq != "" {
+		return e.Sq
+	}
+	return e.ID
+}
+
+func nz2(s [][2]string) [][2]string {
+	if s == nil {
+		return [][2]string{}
+	}
+	return s
+}
+
+// attaches to every processor execution the actions it handed back (those appended between its execution and the next one)
+func attribute(acts []Act) {
+	for i := range cur {
+		lo, hi := marks[i], len(acts)
+		if i+1 < len(marks) {
+			hi = marks[i+1]
+		}
+		if lo > len(acts) {
+			lo = len(acts)
+		}
+		if hi > len(acts) {
+			hi = len(acts)
+		}
+		if hi < lo {
+			hi = lo
+		}
+		cur[i]["acts"] = append([]Act{}, acts[lo:hi]...)
+	}
+}
+
+func invDelta(before, after map[string]int64) []string {
+	out := []string{}
+	for k, v := range after {
+		if v > before[k] {
+			out = append(out, k)
+		}
+	}
+	sort.Strings(out)
+	return out
+}
+
+// runs fn, turning a panic of the engine into an outcome (an observation, judged by the specification)
+func guarded(fn func() error) (msg string, panicked bool) {
+	defer func() {
+		if r := recover(); r != nil {
+			msg, panicked = fmt.Sprint(r), true
+		}
+	}()
+	if err := fn(); err != nil {
+		return err.Error(), false
+	}
+	return "", false
+}
+
+func doRequest(eng *c01eng.Engine, e Event) vh.Ev {
+	cur, marks = []vh.Ev{}, []int{}
+	args := lunar_messages.OnRequest{
+		ID: e.ID, SequenceID: sq(e), Method: e.Method, Scheme: "https", URL: render(e.URL), Query: query(e.Qry),
+		Path: "/" + strings.Join(e.URL[1], "/"), Headers: copyHdr(e.Hdr), RawBody: []byte(e.Body), Time: eng.Clk.Now(),
+	}
+	api := stream_types.NewRequestAPIStream(args, shared)
+	acts := &stream_config.StreamActions{Request: &stream_config.RequestStream{}, Response: &stream_config.ResponseStream{}}
+	curActs = acts
+	before := eng.S.GetFlowInvocations()
+	msg, panicked := guarded(func() error { return eng.S.ExecuteFlow(api, acts) })
+	after := eng.S.GetFlowInvocations()
+	outcome := "ok"
+	if panicked {
+		outcome = "panic"
+	} else if msg != "" {
+		outcome = "error"
+	}
+	list := []Act{}
+	for _, a := range acts.Request.Actions {
+		list = append(list, actOf(a))
+	}
+	nresp := len(acts.Response.Actions)
+	attribute(list)
+	// the answer handed to the proxy: the real fold + SPOE encoding of exactly these actions
+	var out Out
+	if outcome == "ok" {
+		args2 := args
+		args2.Headers = copyHdr(e.Hdr)
+		m, p := guarded(func() error { out = decode(routing.VerifGetSPOEReqActions(args2, acts.Request.Actions)); return nil })
+		if p {
+			out = decode(nil)
+			out.Bad = append(out.Bad, "fold-panic:"+m)
+		}
+	} else {
+		out = decode(nil)
+	}
+	status := 0
+	if out.Early {
+		status = out.St
+	}
+	x := vh.Ev{"side": "req", "url": []any{e.URL[0], nzs(e.URL[1])}, "method": e.Method, "hdr": pairsOf(e.Hdr), "qry": nz2(e.Qry), "status": 0}
+	return vh.Ev{"ev": "tx", "dir": "req", "id": e.ID, "sq": sq(e), "x": x, "body": e.Body, "seq": cur, "inv": invDelta(before, after),
+		"acts": list, "nresp": nresp, "out": out, "status": status, "outcome": outcome, "msg": msg}
+}
+
+func nzs(s []string) []string {
+	if s == nil {
+		return []string{}
+	}
+	return s
+}
+
+func doResponse(eng *c01eng.Engine, e Event) vh.Ev {
+	cur, marks = []vh.Ev{}, []int{}
+	args := lunar_messages.OnResponse{
+		ID: e.ID, SequenceID: sq(e), Method: e.Method, URL: render(e.URL), Status: e.Status, Headers: copyHdr(e.Hdr),
+		RawBody: []byte(e.Body), Time: eng.Clk.Now(),
+	}
+	api := stream_types.NewResponseAPIStream(args, shared)
+	acts := &stream_config.StreamActions{Request: &stream_config.RequestStream{}, Response: &stream_config.ResponseStream{}}
+	curActs = acts
+	msg, panicked := guarded(func() error { return eng.S.ExecuteFlow(api, acts) })
+	outcome := "ok"
+	if panicked {
+		outcome = "panic"
+	} else if msg != "" {
+		outcome = "error"
+	}
+	list := []Act{}
+	for _, a := range acts.Response.Actions {
+		list = append(list, actOf(a))
+	}
+	attribute(list)
+	var out Out
+	if outcome == "ok" {
+		args2 := args
+		args2.Headers = copyHdr(e.Hdr)
+		m, p := guarded(func() error { out = decode(routing.VerifGetSPOERespActions(args2, acts.Response.Actions)); return nil })
+		if p {
+			out = decode(nil)
+			out.Bad = append(out.Bad, "fold-panic:"+m)
+		}
+	} else {
+		out = decode(nil)
+	}
+	x := vh.Ev{"side": "resp", "url": []any{e.URL[0], nzs(e.URL[1])}, "method": e.Method, "hdr": pairsOf(e.Hdr), "qry": [][2]string{}, "status": e.Status}
+	return vh.Ev{"ev": "tx", "dir": "res", "id": e.ID, "sq": sq(e), "x": x, "body": e.Body, "seq": cur, "acts": list, "out": out,
+		"outcome": outcome, "msg": msg}
 }
 
 func main() {
@@ -131,27 +520,16 @@ func main() {
 					if err != nil {
 						vh.Die("engine: %v", err)
 					}
+					shared = lunar_context.NewMemoryState[[]byte]()
 					tr.Add(vh.Ev{"ev": "reset", "now": now})
 				case "adv":
 					now += e.D
 					eng.Clk.Set(at(now))
 					tr.Add(vh.Ev{"ev": "adv", "d": e.D})
 				case "req":
-					cur = []vh.Ev{}
-					res := eng.Request(e.ID, "GET", e.URL, e.Hdr)
-					outcome := "ok"
-					if res.Err != "" {
-						outcome = "error"
-					}
-					tr.Add(vh.Ev{"ev": "tx", "dir": "req", "id": e.ID, "url": e.URL, "hdr": e.Hdr, "seq": cur, "status": res.Status, "outcome": outcome})
+					tr.Add(doRequest(eng, e))
 				case "res":
-					cur = []vh.Ev{}
-					msg := eng.Response(e.ID, "GET", e.URL, e.Status, nil)
-					outcome := "ok"
-					if msg != "" {
-						outcome = "error"
-					}
-					tr.Add(vh.Ev{"ev": "tx", "dir": "res", "id": e.ID, "url": e.URL, "seq": cur, "outcome": outcome})
+					tr.Add(doResponse(eng, e))
 				case "err":
 					eng.S.OnError(e.ID)
 					tr.Add(vh.Ev{"ev": "err", "id": e.ID})
